@@ -594,7 +594,8 @@ def check_dump(env, ctx, dumps):
             ctx.case(("dump", o["name"], tuple(vals)), True,
                      sample={"hdp": " ".join(cmd[1:4]), "tokens": rtoks[:8]} if st["objects"] % 23 == 1 else None)
             rec = "DUMP %s\n%s# API values:  %s\n# hdp tokens:  %s\n# model:       %s\n# hdp stderr: %s\n" % (
-                o["name"], t, " ".join(stoks)[:1500], " ".join(rtoks)[:1500], " ".join(mtoks.get(o["name"], []))[:1500], err[-300:])
+                o["name"], t, " ".join(stoks)[:1500], " ".join(rtoks)[:1500], " ".join(mtoks.get(o["name"], []))[:1500],
+                err[-300:].replace("\n", "\n# "))
             if crashed(rc):
                 ctx.violation("hdp crashed (rc=%d) dumping %s" % (rc, o["name"]), rec, found=True)
             elif rtoks != stoks:
@@ -824,12 +825,38 @@ def replay_text(env, ctx, text, report=True):
     if head[0] == "DUMP":
         t = "\n".join(body[1:]) + "\n"
         d, h = env.mk(t)
-        for mode in ("dumpsds", "dumpgr", "dumpvd"):
-            rc, out, err = env.run([env.hdp, mode, "-d", h])
-            print("hdp %s -d: rc=%d tokens: %s" % (mode, rc, " ".join(out.split())[:2000]))
-        print("API:\n" + env.run([env.exe, "rd", d, h])[1])
-        print("model:\n" + "\n".join(model_lines(env, "dump", t)))
-        return 0
+        api = env.run([env.exe, "rd", d, h])[1]
+        print("API:\n" + api)
+        try:
+            print("model:\n" + "\n".join(model_lines(env, "dump", t)))
+        except vc.BuildError as e:
+            print("model: failed:", e)
+        bad = 0
+        for l in api.splitlines():
+            tk = l.split()
+            if not tk or tk[0] not in "SRV" or (len(head) > 1 and tk[1] != head[1]):
+                continue
+            if tk[0] == "S":
+                rank = int(tk[3])
+                vals, types, mode = list(map(int, tk[5 + rank:])), None, "dumpsds"
+                types = [int(tk[2])] * len(vals)
+            elif tk[0] == "R":
+                vals, mode = list(map(int, tk[7:])), "dumpgr"
+                types = [int(tk[2])] * len(vals)
+            else:
+                nf = int(tk[3])
+                per = []
+                for j in range(nf):
+                    per += [int(tk[5 + 3 * j])] * int(tk[6 + 3 * j])
+                vals, mode = list(map(int, tk[5 + 3 * nf:])), "dumpvd"
+                types = per * int(tk[2])
+            rc, out, err = env.run([env.hdp, mode, "-d", "-n", tk[1], h])
+            want = [fmt_api(nt, v) for nt, v in zip(types, vals)]
+            ok = out.split() == want and not crashed(rc)
+            bad += 0 if ok else 1
+            print("hdp %s -d -n %s: rc=%d %s\n  hdp tokens: %s\n  API values: %s" % (
+                mode, tk[1], rc, "agrees" if ok else "DIFFERS", " ".join(out.split())[:1500], " ".join(want)[:1500]))
+        return 1 if bad else 0
     if head[0] == "IMP":
         inp = env.path(".imp")
         open(inp, "wb").write(bytes.fromhex(body[1].strip()))
@@ -842,13 +869,18 @@ def replay_text(env, ctx, text, report=True):
         out = inp + ".hdf"
         rc, o1, e1 = env.run(args + ["-o", os.path.basename(out)])
         print("hdfimport rc=%d %s" % (rc, (o1 + e1)[-300:]))
-        print("SDreaddata:", env.run([env.exe, "rd0", out])[1])
+        o2 = env.run([env.exe, "rd0", out])[1]
+        print("SDreaddata:", o2)
+        sl = [l for l in o2.splitlines() if l.startswith("S ")]
+        got = " ".join(sl[0].split()[2:]) if sl else "no dataset"
         if mode == "text" and ty in ("INT8", "INT16", "INT32"):
             print("model:", model_lines(env, "imp", "%d %s\n" % (IMP_TEXT[ty][1], inp))[0])
+        want = None
         for l in lines:
             if l.startswith("# spec"):
                 print(l)
-        return 0
+                want = l.split(": ", 1)[1].strip()
+        return 0 if (want is not None and got == want) else 1
     print("unknown replay record", head)
     return 2
 
